@@ -298,14 +298,14 @@ body (`FrameHeaderParseError` → break). It never reports a bad header. -/
 theorem cut_never_partial (frames : List Frame) (hwf : ∀ f ∈ frames, f.wf) (k : Nat) :
     ∃ n, n ≤ frames.length ∧ (readFrames ((encodeAll frames).take k)).1 = frames.take n ∧
       (encodeAll (frames.take n)).length ≤ k ∧
-      ((readFrames ((encodeAll frames).take k)).2 = .clean ↔
+      ((readFrames ((encodeAll frames).take k)).2 = .boundary ↔
           (k = (encodeAll (frames.take n)).length ∨ (n = frames.length ∧ (encodeAll frames).length ≤ k))) ∧
       (∀ w, (readFrames ((encodeAll frames).take k)).2 ≠ .badHeader w) :=
   readFrames_take frames hwf k
 
 /-- The uncut stream reads back exactly. -/
 theorem read_all (frames : List Frame) (hwf : ∀ f ∈ frames, f.wf) :
-    readFrames (encodeAll frames) = (frames, .clean) := by
+    readFrames (encodeAll frames) = (frames, .boundary) := by
   induction frames with
   | nil => exact readFrames_nil
   | cons f fs ih =>
